@@ -496,9 +496,29 @@ pub fn project(runs: &[Run]) -> (Vec<String>, Vec<i64>, FileStats) {
                         {
                             st.clamped += 1;
                         }
+                        // size of the move relative to the configured maximum, in millionths
+                        let rel = {
+                            let k = i - 1;
+                            let maxd = if k < run.bounds.len() {
+                                run.req.max_step * 0.5 * (run.bounds[k].1 - run.bounds[k].0)
+                            } else {
+                                0.
+                            };
+                            let moved = if k < vec.len() && k < base.len() { (vec[k] - base[k]).abs() } else { 0. };
+                            if moved == 0. {
+                                0
+                            } else if maxd > 0. && run.check_range {
+                                let r = (moved / maxd * 1e6).round();
+                                if r > 2e9 { 2_000_000_000 } else { r as i64 }
+                            } else if run.check_range {
+                                2_000_000_000
+                            } else {
+                                0
+                            }
+                        };
                         lines.push(
                             json!({"ev": "propose", "i": i, "before": p.tok(*before),
-                                   "val": p.toks(vec)})
+                                   "val": p.toks(vec), "rel": rel})
                             .to_string(),
                         );
                     }
